@@ -9,15 +9,27 @@
 namespace etl::detail {
 
 template <typename T>
+struct variant_alternative_selector_array {
+    T x[1];
+};
+
+// The imaginary function F(T_i) of [variant.ctor]/14 is only considered if the
+// declaration T_i x[] = {etl::forward<U>(u)}; is well-formed, i.e. alternatives
+// that would need a narrowing conversion (incl. anything but bool -> bool) are
+// not candidates.
+template <typename T>
 struct variant_alternative_selector_single {
-    auto operator()(T /*t*/) const -> T;
+    template <typename U>
+        requires requires(U&& u) { variant_alternative_selector_array<T>{{static_cast<U&&>(u)}}; }
+    auto operator()(T /*t*/, U&& /*u*/) const -> T;
 };
 
 template <typename... Ts>
 inline constexpr auto variant_alternative_selector = etl::overload{variant_alternative_selector_single<Ts>{}...};
 
 template <typename T, typename... Ts>
-using variant_alternative_selector_t = decltype(variant_alternative_selector<Ts...>(etl::declval<T>()));
+using variant_alternative_selector_t
+    = decltype(variant_alternative_selector<Ts...>(etl::declval<T>(), etl::declval<T>()));
 
 } // namespace etl::detail
 
